@@ -60,6 +60,13 @@ AUX2_RECS = [
     mrec("b", "x", ["n2"]),
     mrec("n1", "y", [], ["y2", "y2"]),
 ]
+LOADER_INITS = [
+    [mrec("A", "X"), mrec("a", "x")],                       # from_prefix_map
+    [mrec("a", "x"), mrec("b", "y"), mrec("e", "xy")],      # from_prefix_map, three records
+    [mrec("a", "x", [], ["X"]), mrec("b", "y", [], ["yy"])],  # from_priority_prefix_map
+    [mrec("a", "x", ["b"], ["y"]), mrec("c", "z")],         # from_extended_prefix_map
+]
+
 AUX2_INITS = [
     [],
     [mrec("a", "x", ["b", "b"], ["y", "y"])],
@@ -155,9 +162,20 @@ def execute(case, ctx=None):
     """Replay a history on fresh objects with all checks. Returns (failures, final canon, final converter)."""
     fails = []
     init = [rec_from_json(j) for j in case["init"]]
-    conv = build(init)
+    via = case.get("via")
+    if via == "loader":
+        # the initial converter comes out of a loader (the usual way to obtain one), not out of the constructor
+        if all(not r.psyn and not r.usyn and not r.pattern for r in init):
+            conv = Converter.from_prefix_map({r.prefix: r.uri_prefix for r in init})
+        elif all(not r.psyn and not r.pattern for r in init):
+            conv = Converter.from_priority_prefix_map({r.prefix: [r.uri_prefix, *r.usyn] for r in init})
+        else:
+            conv = Converter.from_extended_prefix_map([dict(prefix=r.prefix, uri_prefix=r.uri_prefix, prefix_synonyms=list(r.psyn), uri_prefix_synonyms=list(r.usyn), pattern=r.pattern) for r in init])
+    else:
+        conv = build(init)
     model = Model(list(init), ":")
     ops = case["ops"]
+    same_object = {}   # via == "loader" histories also hand the *same* Record object in again when a record repeats
     observe(conv, Q_LIGHT, QUERY_PREFIXES)  # observe the initial state on the live object (plants any cache)
     for step, op in enumerate(ops):
         last = step == len(ops) - 1
@@ -165,7 +183,18 @@ def execute(case, ctx=None):
         before_views = views(conv)
         before_ordered = [(r.prefix, r.uri_prefix, list(r.prefix_synonyms), list(r.uri_prefix_synonyms), r.pattern) for r in conv.records]
         r = rec_from_json(op["rec"])
-        exc = apply_op(conv, op)
+        if via == "loader" and op["via"] == "add_record":
+            key_ = repr(op["rec"])
+            obj_ = same_object.get(key_)
+            if obj_ is None or any(obj_ is x for x in conv.records):   # (an object the converter took over is not handed in again)
+                obj_ = same_object[key_] = to_record(r)
+            try:
+                conv.add_record(obj_, case_sensitive=op["cs"], merge=op["merge"])
+                exc = None
+            except Exception as e_:  # noqa
+                exc = e_
+        else:
+            exc = apply_op(conv, op)
         outcome, idx = model.add_record(r, case_sensitive=op["cs"], merge=op["merge"])
         where = f"step {step} {op['via']}({op['rec']}, cs={op['cs']}, merge={op['merge']})"
         if ctx is not None:
@@ -265,6 +294,8 @@ def run_unit(unit, ctx):
     for hist in unit["frontier"]:
         for k, op in enumerate(ops):
             case = {"init": hist["init"], "ops": hist["ops"] + [op]}
+            if hist.get("via"):
+                case["via"] = hist["via"]
             fails, cn, conv = execute(case, ctx)
             if fails:
                 for sig, msg in fails[:2]:
@@ -285,8 +316,10 @@ def explore(tier, seed, procs=None):
     total.levels = []
     samples = []
     for phase, (ops, inits, depth) in enumerate(((all_ops(tier), INITS, {"quick": 3, "thorough": 4}[tier]), (all_ops("thorough", aux=True), [[]], {"quick": 3, "thorough": 4}[tier]),
-                                                 (all_ops("thorough", aux=2), AUX2_INITS, {"quick": 2, "thorough": 3}[tier]))):
-        bfs(total, samples, ops, inits, depth, seed, procs, phase)
+                                                 (all_ops("thorough", aux=2), AUX2_INITS, {"quick": 2, "thorough": 3}[tier]),
+                                                 # loader-built initial converters, repeated records handed in as the same object
+                                                 ([o for o in all_ops("quick") if o["via"] == "add_record"], LOADER_INITS, {"quick": 2, "thorough": 3}[tier]))):
+        bfs(total, samples, ops, inits, depth, seed, procs, phase, via="loader" if phase == 3 else None)
         if total.violations or total.errors:
             break
     if not total.violations and not total.errors:
@@ -296,11 +329,13 @@ def explore(tier, seed, procs=None):
     return total
 
 
-def bfs(total, samples, ops, inits, depth, seed, procs, phase):
+def bfs(total, samples, ops, inits, depth, seed, procs, phase, via=None):
     seen = set()
     frontier = []
     for init in inits:
         case = {"init": [rec_to_json(r) for r in init], "ops": []}
+        if via:
+            case["via"] = via
         _, cn, _ = execute(case, None)
         if hash(cn) not in seen:
             seen.add(hash(cn))
